@@ -150,6 +150,7 @@ func runCheck(prop, tier, repo, verif string, verbose, noReplay bool, evOut stri
 		perFunc = map[string]int{}
 		for _, vc := range vcs {
 			for _, o := range vc.obls {
+				o.Skip = !(o.Canary || hasProp(o.Props, prop))
 				if o.Canary || hasProp(o.Props, prop) {
 					obls = append(obls, o)
 					vcOf[o] = vc
